@@ -9,6 +9,7 @@
 #include <cstring>
 #include <vector>
 #include <omp.h>
+#include <mutex>
 
 static int g_fail = 0;
 static int g_replays = 0;
@@ -86,6 +87,59 @@ static void k_runtime_set_guided(K &k)
 #pragma omp parallel for schedule(runtime)
     for (long i = k.n - 1; i >= 0; i--)
         k.b[i] = k.a[i] * 3 + 1;
+}
+static std::mutex g_mu;
+static void k_std_mutex_sum(K &k)
+{
+    k.sum = 0;
+#pragma omp parallel for schedule(static)
+    for (long i = 0; i < k.n; i++)
+    {
+        std::lock_guard<std::mutex> lock(g_mu); // a preempted holder must not block the whole (single-threaded) process
+        k.sum += k.a[i];
+    }
+}
+static uint64_t slow_table_value(const uint64_t *a)
+{
+    uint64_t v = 0;
+    for (int i = 0; i < 6; i++)
+        v += a[0] * (uint64_t)(i + 1); // several instrumented accesses: the initialiser can be preempted
+    return v / 21 * 3 + 41; // == 3*a[0] + 41 - ... (a[0] = 1 in every case) -> 44
+}
+static void k_function_static(K &k)
+{
+#pragma omp parallel for schedule(static)
+    for (long i = 0; i < k.n; i++)
+    {
+        static const uint64_t once_value = slow_table_value(k.a); // guard acquire/release inside the region
+        k.b[i] = k.a[i] + once_value;
+    }
+}
+static std::once_flag g_once_flag;
+static uint64_t g_once_value;
+static void k_call_once(K &k)
+{
+#pragma omp parallel for schedule(dynamic, 1)
+    for (long i = 0; i < k.n; i++)
+    {
+        std::call_once(g_once_flag, [&] { g_once_value = slow_table_value(k.a); });
+        k.b[i] = k.a[i] + g_once_value;
+    }
+}
+static thread_local uint64_t tl_scratch[4];
+static uint64_t g_tp_scratch[4];
+#pragma omp threadprivate(g_tp_scratch)
+static void k_thread_local_scratch(K &k)
+{
+    // per-thread scratch in thread_local / threadprivate storage: correct code, must not be reported, and a
+    // member preempted between the store and the load must find its own value again
+#pragma omp parallel for schedule(static)
+    for (long i = 0; i < k.n; i++)
+    {
+        tl_scratch[0] = k.a[i];
+        g_tp_scratch[1] = tl_scratch[0] * 3;
+        k.b[i] = g_tp_scratch[1] + 1;
+    }
 }
 static void k_two_phase_barrier(K &k)
 {
@@ -246,6 +300,10 @@ static bool run_case(const Case &c, int strategy, int threads, uint64_t seed, lo
         for (long i = 0; i < n; i++)
             ok &= b[i] == a0[i] + 42;
         break;
+    case 6:
+        for (long i = 0; i < n; i++)
+            ok &= b[i] == a0[i] + 44;
+        break;
     case 5:
         for (long i = 0; i < n; i++)
             ok &= ((unsigned char *)b.data())[i] == (unsigned char)(a0[i] & 0xff);
@@ -259,6 +317,8 @@ static bool run_case(const Case &c, int strategy, int threads, uint64_t seed, lo
 int main()
 {
     sim::init();
+    if (!sim::member_tls_enabled())
+        printf("SELFTEST-NOTE per-member TLS is not available on this system (thread_local objects are shared by members)\n");
     static const Case cases[] = {
         {"static", k_static, false, 0},
         {"static_chunk_ull", k_static_chunk_ull, false, 0},
@@ -269,6 +329,10 @@ int main()
         {"runtime_set_dynamic", k_runtime_set_dynamic, false, 0},
         {"runtime_set_static", k_runtime_set_static, false, 0},
         {"runtime_set_guided", k_runtime_set_guided, false, 0},
+        {"std_mutex_sum", k_std_mutex_sum, false, 2},
+        {"function_static", k_function_static, false, 6},
+        {"call_once", k_call_once, false, 6},
+        {"thread_local_scratch", k_thread_local_scratch, false, 0},
         {"two_phase_barrier", k_two_phase_barrier, false, 1},
         {"two_phase_nowait_race", k_two_phase_nowait_race, true, 4},
         {"critical_sum", k_critical_sum, false, 2},
